@@ -12,17 +12,51 @@ def content_for(rng, k):
         return ("%07d" if rng.random() < 0.5 else "%012d") % rng.randrange(10 ** 7)
     if k.startswith("tof"):
         return "%06d" % rng.randrange(10 ** 6)
+    if k.startswith("qr") and rng.random() < 0.3:
+        # large symbols (version >= 21): several contents of nearly the same length land in the same version
+        return "".join(rng.choice("ABCDEFGHIJKLMNOPQRSTUVWXYZ0123456789 abc") for _ in range(rng.randrange(1010, 1060)))
     if k.startswith("qr") or k.startswith("dm") or k.startswith("az") or k.startswith("pdf"):
         return "".join(rng.choice("ABCDEFGHIJKLMNOPQRSTUVWXYZ0123456789 abc") for _ in range(rng.randrange(1, 60)))
     return "".join(rng.choice("ABCDEFGHIJKLMNOPQRSTUVWXYZ0123456789") for _ in range(rng.randrange(1, 14)))
+
+
+def near_duplicate(rng, k, c):
+    """a content that shares a long prefix (or suffix) with an earlier one: caches keyed by part of the content"""
+    if len(c) < 2:
+        return c
+    if k == "ean":
+        i = rng.choice([7, 7, len(c) - 1]) if len(c) > 7 else len(c) - 1
+        return c[:i] + "".join(rng.choice("0123456789") for _ in range(len(c) - i))
+    if k == "codabar":
+        body = c[1:-1]
+        return c[0] + body[:len(body) // 2] + "".join(rng.choice("0123456789") for _ in range(len(body) - len(body) // 2)) + c[-1]
+    alpha = "0123456789" if (k.startswith("tof") or c.isdigit()) else "ABCDEFGHIJKLMNOPQRSTUVWXYZ0123456789"
+    if rng.random() < 0.7:
+        i = rng.randrange(1, len(c))
+        return c[:i] + "".join(rng.choice(alpha) for _ in range(len(c) - i))
+    i = rng.randrange(1, len(c))
+    return "".join(rng.choice(alpha) for _ in range(i)) + c[i:]
+
+
+BAD = {"ean": ["12345x7", "1234567890ab", "123"], "codabar": ["A12", "12B", "AxB"], "tof": ["12a4", "4711x", "1234a6"],
+       "c128": ["ab\u00e9", "\u00e9"], "c39": ["ok\u00e9", "AB*"], "c93": ["ok\u00e9", "A*B"],
+       "qr": ["\u00e9" * 3000], "dm": ["a" * 1600], "az": ["A" * 4000], "pdf": ["A" * 3000]}
 
 
 def held_phase(rep, impl_exe, rng, kinds, n=12):
     """kinds: encoder-argument prefixes of all.go's encodeAny, e.g. ["c93 1 0", "c93 0 1"]"""
     hjobs = []
     for k in kinds:
+        prev = []
         for _ in range(n):
-            hjobs.append("hold %s %s" % (k, J.hx(content_for(rng, k))))
+            c = near_duplicate(rng, k, rng.choice(prev)) if prev and rng.random() < 0.45 else content_for(rng, k)
+            prev.append(c)
+            hjobs.append("hold %s %s" % (k, J.hx(c)))
+        # rejected calls in between (state left behind on an error path must not leak into later symbols)
+        fam = k.split()[0].rstrip("n")
+        for b in BAD.get(fam, [])[:2]:
+            hjobs.append("hold %s %s" % (k, J.hx(b)))
+    # keep each family's order (near-duplicates follow their originals) but interleave the families
     rng.shuffle(hjobs)
     houts = run_lines(impl_exe, hjobs + ["recheck"], shards=1)
     kept = [o for o in houts[:-1] if o.startswith("OK")]
